@@ -417,3 +417,28 @@ Example C02_trafo_pi_chain_nonvacuous :
   o_bm ex_to * o_bm ex_to == trafo_ym2 ex_t.
 Proof. split; [eexists; vm_compute; reflexivity | split; vm_compute; reflexivity]. Qed.
 Print Assumptions C02_trafo_pi_chain_nonvacuous.
+
+(* trafo_model "t", from the producer: whenever _calc_branch_values_from_trafo_df returns a row for a transformer with a
+   magnetising branch (no UserWarning, _wye_delta does not raise FloatingPointError), the row carries TAP = nominal ratio,
+   SHIFT = adjusted shift and its stamps + flows are S_N v conj(i) of the documented T circuit: hv leakage
+   za = r rr + j x xr, lv leakage zb = r(1-rr) + j x(1-xr) with (r, x) of C02_trafo_rx_documented, magnetising branch
+   yc = g + jb of C02_trafo_gb_documented at the inner node, behind the ideal transformer — all side conditions discharged *)
+Theorem C02_trafo_t_chain : forall sn t o vnh vnl shift bh bl row e vf vt,
+  trafo_branch sn true t o vnh vnl shift bh bl = Ok row -> t_in t = true ->
+  ~ (fst (trafo_gb sn t o vnl bl) == 0 /\ snd (trafo_gb sn t o vnl bl) == 0) ->
+  ~ nominal_ratio vnh vnl bh bl == 0 -> re e * re e + im e * im e == 1 ->
+  let r := fst (trafo_rx sn t o vnl bl) in let x := snd (trafo_rx sn t o vnl bl) in
+  let za := wd_za r x (t_rr t) (t_xr t) in let zb := wd_zb r x (t_rr t) (t_xr t) in
+  let yc := mkC (fst (trafo_gb sn t o vnl bl)) (snd (trafo_gb sn t o vnl bl)) in
+  let vf' := Cdiv vf (Cscale (nominal_ratio vnh vnl bh bl) e) in
+  let i := t_circuit_I za zb yc vf' vt in
+  b_tap row = nominal_ratio vnh vnl bh bl /\ b_shift row = shift /\
+  Ceq2 (flows (stamps_core row e) vf vt sn)
+       (Cscale sn (Cmul vf' (Cconj (fst i))), Cscale sn (Cmul vt (Cconj (snd i)))).
+Proof. exact trafo_t_chain. Qed.
+Print Assumptions C02_trafo_t_chain.
+Example C02_trafo_t_chain_nonvacuous :
+  (exists row, trafo_branch 1 true ex_t ex_to 110 20 0 110 20 = Ok row) /\
+  ~ (fst (trafo_gb 1 ex_t ex_to 20 20) == 0 /\ snd (trafo_gb 1 ex_t ex_to 20 20) == 0) /\ ~ nominal_ratio 110 20 110 20 == 0.
+Proof. split; [eexists; vm_compute; reflexivity | split; vm_compute; [intros [H _]; discriminate H | discriminate]]. Qed.
+Print Assumptions C02_trafo_t_chain_nonvacuous.
